@@ -558,7 +558,9 @@ def gen_xcases(rng, n):
               (b"7,a[1-3],[5-6]", b"7,5", "mixed"), (b"n[1-4]", b"n[2-3]", "range/range"),
               (b"a[1-3],a[2-4]", b"a2", "repeats"), (b"x[1-2]-[0-1],b,x1-1", b"x1-[1-2],b", "two-bracket"),
               (b"foo1,foo01,foo001", b"foo01", "padding"), (b"[1-3]0,[9-11]", b"20,10", "numeric-suffix"),
-              (b"42,[40-44],042", b"42", "numeric-dup"), (b"0,[0-1],00", b"0", "zero")]
+              (b"42,[40-44],042", b"42", "numeric-dup"), (b"0,[0-1],00", b"0", "zero"),
+              (b"n335544330[1-2]", b"n3355443301", "bigsuffix-one-bracket"),
+              (b"n[33554433]0[1-2]", b"n3355443301", "bigsuffix-two-bracket")]
     out = list(pinned)
     gen = WFGen(rng, cli=True, max_hosts=25, near_max=False)
     tries = 0
@@ -676,7 +678,16 @@ def context_check(ctx, hl, dist, cov, only=None):
                 continue
         if hosts != exp:
             i, a, b = first_diff(hosts, exp)
-            ctx.offender("ctx-x-mismatch", "pdsh -w %r -x %r targets %r where (expansion of -w) minus (expansion of -x) "
+            # narrow class: nothing wanted is missing, and every host that should be gone but is still there was named
+            # in -x by a PLAIN WORD whose digit tail exceeds MAX_HOST_SUFFIX (2^25) while the working collective holds
+            # it in a range record (second bracket of a two-bracket word): hostname_create() never splits such a tail
+            kept = [h for h in hosts if h in gone]
+            big = (1 << 25)
+            sig = "ctx-x-mismatch"
+            if [h for h in hosts if h not in gone] == exp and kept and \
+               all((tail_value(h) or 0) > big for h in kept) and w.count(b"[") >= 2:
+                sig = "ctx-x-mismatch:bigsuffix+two-bracket"
+            ctx.offender(sig, "pdsh -w %r -x %r targets %r where (expansion of -w) minus (expansion of -x) "
                          "has %r (position %d; %d vs %d hosts)" % (w[:80], x[:80], show(a), show(b), i, len(hosts), len(exp)),
                          dict(case, position=i, impl_name=show(a), expected_name=show(b)))
     for k, (lines, note) in enumerate(fcases):
